@@ -106,30 +106,53 @@ GenApiAny ==
          \/ \E c \in Sub : PubRemove(c) /\ Api([a |-> "PubRemove", c |-> c])
          \/ \E c \in Sub : PubAdd(c) /\ Api([a |-> "PubAdd", c |-> c])
          \/ RepoSyncAll /\ Api([a |-> "RepoSyncAll"])
-    \/ "restart" \in Ops /\ UNCHANGED vars /\ Api([a |-> "Restart"])
+    \/ "restart" \in Ops /\ UNCHANGED <<pubknown, pst, rst, kst, exists, gone, parent, hasp, ent,
+                                          cstate, iss, sus, rc, rcv, req, routes, pub, tasks>>
+                         /\ Api([a |-> "Restart"])
+
+\* a key roll of the CA under the trust anchor
+GenTaApi ==
+    "taroll" \in Ops /\
+    \/ RollInit(Top) /\ UNCHANGED tavars /\ Api([a |-> "RollInit", c |-> Top])
+    \/ TopRollActivate /\ Api([a |-> "RollActivate", c |-> Top])
 
 GenApi ==
     IF RollFirst /\ RollReady
-    THEN \E c \in Sub : RollActivate(c) /\ Api([a |-> "RollActivate", c |-> c])
-    ELSE GenApiAny
+    THEN \E c \in Sub : RollActivate(c) /\ UNCHANGED tavars
+                         /\ Api([a |-> "RollActivate", c |-> c])
+    ELSE (GenApiAny /\ UNCHANGED tavars) \/ GenTaApi
 
 \* one background task, named
+\* (the trust anchor's tasks and Top's synchronisation with it: stepped by
+\* name when they have something to do)
 GenStep ==
     /\ ~settling
-    /\ \E t \in tasks :
-        /\ RunTask(t)
-        /\ hist' = Append(hist, [a |-> "Step", task |-> TaskName(t)])
+    /\ \/ \E t \in tasks :
+            /\ RunTask(t) /\ UNCHANGED tavars
+            /\ hist' = Append(hist, [a |-> "Step", task |-> TaskName(t)])
+       \/ /\ "taroll" \in Ops
+          /\ \/ /\ (req[Top] \ taq) # {} /\ TopSync
+                /\ hist' = Append(hist, [a |-> "Step",
+                                 task |-> "sync_" \o Top \o "_with_parent_ta"])
+             \/ /\ taq # {} /\ TaCycle
+                /\ hist' = Append(hist, [a |-> "Step", task |-> "sync_ta_proxy_signer"])
+             \/ /\ tapub # taiss /\ TaRepo
+                /\ hist' = Append(hist, [a |-> "Step", task |-> "sync_repo_ta"])
     /\ streak' = 0 /\ settling' = FALSE /\ dirty' = TRUE /\ destr' = destr
 
 \* Settle: the harness refreshes and runs tasks to a fixed point
 GenSettleStart ==
     /\ ~settling /\ "refresh" \in Ops /\ dirty
-    /\ RefreshAll
+    /\ RefreshAll /\ UNCHANGED tavars
     /\ hist' = Append(hist, [a |-> "Settle"])
     /\ settling' = TRUE /\ streak' = 0 /\ dirty' = FALSE /\ destr' = destr
 GenSettleRun ==
-    /\ settling /\ tasks # {}
-    /\ \E c \in AllCA : Task(c)
+    /\ settling
+    /\ \/ tasks # {} /\ (\E c \in AllCA : Task(c)) /\ UNCHANGED tavars
+       \/ /\ "taroll" \in Ops /\ TaWork
+          /\ \/ (req[Top] \ taq) # {} /\ TopSync
+             \/ taq # {} /\ TaCycle
+             \/ tapub # taiss /\ TaRepo
     /\ UNCHANGED <<hist, streak, settling, dirty, destr>>
 \* the end of a settle; a maintenance run may follow at once, observed in
 \* isolation: mark the facts, run the maintenance task and the syncs it
@@ -142,7 +165,7 @@ MaintSeq(task, expect, due) ==
             [a |-> "RestartNormal"], [a |-> expect] >>
     ELSE << [a |-> "Mark"], [a |-> task], [a |-> "Pump"], [a |-> expect] >>
 GenSettleEnd ==
-    /\ settling /\ tasks = {}
+    /\ settling /\ tasks = {} /\ ("taroll" \in Ops => ~TaWork)
     /\ settling' = FALSE
     /\ \/ hist' = hist
        \/ /\ "maintain" \in Ops
